@@ -304,6 +304,50 @@ theorem sqrt_bits (a : Nat) (fa : FinB a) (hpos : 0 < bval a) :
   have k0 : key 0 = 0 := by decide
   omega
 
+/-- the root of a finite positive number is finite (it is at most `2^512`) -/
+theorem sqrt_finite (a : Nat) (fa : FinB a) (hpos : 0 < bval a) : FinB (Num.sqrt .f64 a) := by
+  obtain ⟨hs, hm⟩ := (bval_pos_iff a).1 hpos
+  have hfc : FinB 0x5FF0000000000000 := by decide
+  have hvc : bval 0x5FF0000000000000 = 4503599627370496 * pow2 460 := by
+    have e1 : negB64 0x5FF0000000000000 = false := by decide
+    have e2 : mantB 0x5FF0000000000000 = 4503599627370496 := by decide
+    have e3 : expB 0x5FF0000000000000 = 460 := by decide
+    unfold bval sval; rw [e1, e2, e3]; simp
+  have hp := pow2_pos 460
+  have hc0 : 0 ≤ bval 0x5FF0000000000000 := by rw [hvc]; positivity
+  have hle : bval a ≤ bval 0x5FF0000000000000 ^ 2 := by
+    rw [hvc]
+    have hm53 := mantB_lt a
+    have he := expB_le a fa
+    unfold bval sval; rw [hs]
+    simp only [Bool.false_eq_true, if_false, one_mul]
+    have h1 : (mantB a : ℚ) ≤ 9007199254740992 := by
+      have : mantB a ≤ 9007199254740992 := by omega
+      exact_mod_cast this
+    have h2 : pow2 (expB a) ≤ pow2 971 := by
+      rw [pow2_split 971 (expB a) he]
+      have : (1:ℚ) ≤ ((2 ^ (971 - expB a).toNat : Nat) : ℚ) := by
+        have := Nat.two_pow_pos (971 - expB a).toNat
+        exact_mod_cast this
+      have hp' := pow2_pos (expB a)
+      nlinarith
+    have h3 : pow2 971 = 2251799813685248 * (pow2 460 * pow2 460) := by
+      rw [← pow2_add, show (460 : Int) + 460 = 920 by decide, pow2_split 971 920 (by decide)]
+      have : ((2 ^ ((971 : Int) - 920).toNat : Nat) : ℚ) = 2251799813685248 := by
+        rw [show ((971 : Int) - 920).toNat = 51 by decide]; norm_num
+      rw [this]
+    have hpe := pow2_pos (expB a)
+    have hm0 : (0:ℚ) ≤ (mantB a : ℚ) := Nat.cast_nonneg _
+    calc (mantB a : ℚ) * pow2 (expB a) ≤ 9007199254740992 * pow2 971 :=
+          mul_le_mul h1 h2 (le_of_lt hpe) (by norm_num)
+      _ = (4503599627370496 * pow2 460) ^ 2 := by rw [h3]; ring
+  have hk := (sqrt_faithful a 0x5FF0000000000000 fa hpos (by decide) hfc hc0).2 hle
+  have hb := sqrt_bits a fa hpos
+  have kc : key 0x5FF0000000000000 = 6913025428013711360 := by decide
+  unfold key at hk
+  rw [if_neg (by omega), if_neg (by decide)] at hk
+  unfold FinB; omega
+
 /-! ## special operands -/
 
 /-- `√(±0) = ±0` (the sign of zero is kept) -/
